@@ -17,7 +17,11 @@ R = Rules(
         "conditional expressions and min()/max() are split into alternatives, each alternative is brought "
         "into polynomial normal form and compared with the RFC 7959 section 2.2 / RFC 8323 section 6 "
         "reference (size = 2^(SZX+4), start = NUM*size, slice [start, min(start+size, len)), more <=> "
-        "end < len, BERT unit 1024).  Ordering clauses are dominance / must-pass rules on per-function CFGs: "
+        "end < len, BERT unit 1024).  Definitions are followed through chained and unpacking assignments and "
+        "assignment expressions; reads of literal / module-level constant tables with a decided key, divmod(), "
+        "`% 2^k`, `& (2^k-1)`, `& -2^k` and `>> k` are brought to the one floor-division atom; a keyword dict or a "
+        "message filled by stores on several paths is read as one keyword set per path with that path's branch "
+        "outcomes; a local whose value cannot be traced is refused, never compared by name.  Ordering clauses are dominance / must-pass rules on per-function CFGs: "
         "the Block1 number comparison precedes every cursor update and every consistent continuation of its "
         "mismatch outcome raises.  The cursor/exponent bookkeeping is decided on the effect of one round of the "
         "Block1 loop: the checker's own evaluator executes the CFG from one cut to the next for every pair "
@@ -3343,6 +3347,21 @@ R.seed("C05.c", F_PRO, "                if size_exp != 7:\n", "                i
 R.seed("C05.d", F_MSG, "        self.payload += next_block.payload\n        self.opt.block2 = block2", "        self.payload = next_block.payload + self.payload\n        self.opt.block2 = block2", "block prepended instead of appended")
 R.seed("C05.e", F_PRO, "if initial_response.opt.block2.block_number != 0:", "if initial_response.opt.block2.block_number > 1:", "a transfer starting at block 1 accepted")
 R.seed("C05.a", F_MSG, "        if self.code.is_request():\n            return self.copy(payload=payload, mid=None, block1=blockopt)", "        if not self.code.is_request():\n            return self.copy(payload=payload, mid=None, block1=blockopt)", "descriptor options swapped between requests and responses")
+# sixth pass: the generalised value resolution (chained assignment, min(), masks, dicts / messages built up on
+# several paths) still bites when the fault is written in one of the newly understood spellings
+R.seed("C05.a", F_MSG, "            start = number * 1024\n            size = 1024 * (max_bert_size // 1024)\n",
+       "            start = size = 1024 * (max_bert_size // 1024)\n            start *= number\n", "chained assignment: BERT offset counted in whole messages instead of 1024-byte units")
+R.seed("C05.a", F_MSG, "end = start + size if start + size < len(self.payload) else len(self.payload)", "end = min(start + size, len(self.payload) - 1)",
+       "min() spelling: the last byte of the body is never sent")
+R.seed("C05.a", F_MSG, "size = 1024 * (max_bert_size // 1024)", "size = max_bert_size & 1023", "mask spelling: remainder instead of the whole 1024-byte units")
+R.seed("C05.a", F_MSG, "        if self.code.is_request():\n            return self.copy(payload=payload, mid=None, block1=blockopt)\n        else:\n            return self.copy(payload=payload, mid=None, block2=blockopt)\n",
+       "        kw = {\"payload\": payload, \"mid\": None}\n        if self.code.is_request():\n            kw[\"block2\"] = blockopt\n        else:\n            kw[\"block1\"] = blockopt\n        return self.copy(**kw)\n",
+       "keyword dict filled on two paths: options swapped")
+R.seed("C05.a", F_MSG, "        if self.code.is_request():\n            return self.copy(payload=payload, mid=None, block1=blockopt)\n        else:\n            return self.copy(payload=payload, mid=None, block2=blockopt)\n",
+       "        block = self.copy(payload=payload, mid=None)\n        block.opt.block2 = blockopt\n        return block\n",
+       "option stored into the built message: a request block is described in Block2")
+R.seed("C05.a", F_MSG, "            size = 2 ** (size_exp + 4)\n            start = number * size\n", "            size = (16, 32, 64, 128, 256, 512, 1024)[size_exp]\n            start = number * (16, 32, 64, 128, 256, 512, 512)[size_exp]\n",
+       "table spelling: offsets of 1024-byte blocks counted in 512-byte units")
 
 R.seed("C05.g", "aiocoap/transports/rfc8323common.py", "            return ((max_message_size - 128) // 1024) * 1024 + slack", "            return (max_message_size // 1024) * 1024 - 128 + slack", "payload size below 1024 for Max-Message-Size 1153..2047 while the exponent stays 7: empty BERT blocks for ever")
 R.seed("C05.h", F_PRO, "                if not blockresponse.code.is_successful():\n                    break\n", "                if blockresponse.code.is_successful():\n                    break\n",
